@@ -1,11 +1,13 @@
 pub mod common;
 pub mod c01;
 pub mod c06;
+pub mod c12;
+pub mod c13;
 
 use crate::runner::Check;
 
 pub fn all() -> Vec<Box<dyn Check>> {
-    vec![Box::new(c01::C01), Box::new(c06::C06)]
+    vec![Box::new(c01::C01), Box::new(c06::C06), Box::new(c12::C12), Box::new(c13::C13)]
 }
 
 pub fn by_id(id: &str) -> Option<Box<dyn Check>> {
